@@ -239,7 +239,16 @@ def run_given(strategy, body, ctx, max_examples, shrink=None, salt=0):
 
     before = set(col.failures)
 
+    # Hypothesis always starts the generate phase with its simplest ("all-zero") example, which is the same in
+    # every shard: shards other than the first skip it (and get one more example instead).
+    skip_first = [ctx.shard_index != 0]
+    if skip_first[0]:
+        max_examples += 1
+
     def t(case):
+        if skip_first[0]:
+            skip_first[0] = False
+            return
         if ctx.expired():
             col.inconclusive = 1
             return
